@@ -119,8 +119,11 @@ def _common(m, case):
 def build_bilateral(case: dict):
     """case: graph, sym {tumor_spread, lnl_spread}, params (composite keyword names) or
     ipsi_params/contra_params (leaf keyword names), mods, dists, max_time"""
+    extra = {}
+    if case.get("contra_graph"):       # the same graph listed in another order on the contralateral side
+        extra["contra_kwargs"] = {"graph_dict": gen.graph_dict(case["contra_graph"])}
     m = models.Bilateral(gen.graph_dict(case["graph"]), is_symmetric=dict(case.get("sym", {})),
-                         uni_kwargs=_uni_kwargs(case))
+                         uni_kwargs=_uni_kwargs(case), **extra)
     if case.get("params"):
         m.set_params(**case["params"])
     if case.get("ipsi_params"):
@@ -228,9 +231,13 @@ def prime_inplace_modality_edit(m, case, query):
     except Exception:  # noqa: BLE001
         pass
     for name, spec, sens, kind in case.get("mods") or []:
-        mod = m.get_modality(name)
-        mod.spec = spec
-        mod.sens = sens
+        m.get_modality(name).spec = spec
+    try:
+        query(m)                      # (a query between the two restores: each setter alone must invalidate)
+    except Exception:  # noqa: BLE001
+        pass
+    for name, spec, sens, kind in case.get("mods") or []:
+        m.get_modality(name).sens = sens
 
 
 def build_uni_via_other_max_time(case: dict, delta: int = 2):
@@ -273,3 +280,21 @@ def run_primes(m, case, query, primes):
     _random.Random(seed).shuffle(order)
     for prime in order:
         prime(m, case, query)
+
+
+def prime_twin_relisted(case):
+    """another live instance: the same graph with the LNLs listed in reverse order and the same parameters, queried
+    first (results of the model under test must not depend on what other instances computed, C09/C15)"""
+    g = case["graph"]
+    tum = [e for e in g["entries"] if e[0] == "tumor"]
+    lnl = [e for e in g["entries"] if e[0] == "lnl"]
+    if len(lnl) < 2:
+        return
+    twin = dict(case)
+    twin["graph"] = {"base": g["base"], "entries": tum + lnl[::-1]}
+    try:
+        t = build_uni(twin)
+        t.transition_matrix()
+        t.state_dist_evo()
+    except Exception:  # noqa: BLE001
+        pass
